@@ -94,6 +94,7 @@ def generate(repo):
                 t = ast.parse(f.read())
             for fn in [n for n in ast.walk(t)
                        if isinstance(n, ast.FunctionDef)]:
+                MODULE_OF[id(fn)] = t
                 for r in [n for n in ast.walk(fn)
                           if isinstance(n, ast.Raise)]:
                     e = r.exc
@@ -141,9 +142,25 @@ def _is_text(node, fn, depth=0):
         asg = [a for a in ast.walk(fn) if isinstance(a, ast.Assign)
                and any(isinstance(t, ast.Name) and t.id == node.id
                        for t in a.targets)]
-        return bool(asg) and all(_is_text(a.value, fn, depth + 1)
-                                 for a in asg)
+        if asg:
+            return all(_is_text(a.value, fn, depth + 1) for a in asg)
+        # a module-level constant (assigned exactly once, never rebound
+        # with `global`)
+        mod = MODULE_OF.get(id(fn))
+        if mod is not None:
+            top = [a for a in mod.body if isinstance(a, ast.Assign)
+                   and any(isinstance(t, ast.Name) and t.id == node.id
+                           for t in a.targets)]
+            rebound = any(isinstance(g, ast.Global) and node.id in g.names
+                          for g in ast.walk(mod))
+            is_param = any(a.arg == node.id for a in
+                           fn.args.args + fn.args.kwonlyargs)
+            if len(top) == 1 and not rebound and not is_param:
+                return _is_text(top[0].value, fn, depth + 1)
     return False
+
+
+MODULE_OF = {}
 
 
 def _kind(node, fn, site):
